@@ -13,7 +13,7 @@ use crate::static_graphql::schema::{
 };
 use crate::validation::utils::{ValidationError, ValidationErrorContext};
 use std::borrow::Borrow;
-use std::collections::HashMap;
+use std::collections::{HashMap, HashSet};
 use std::fmt::Debug;
 use std::hash::Hash;
 /// Overlapping fields can be merged
@@ -26,10 +26,11 @@ use std::hash::Hash;
 pub struct OverlappingFieldsCanBeMerged<'a> {
     named_fragments: HashMap<&'a str, &'a FragmentDefinition>,
     compared_fragments: PairSet<'a>,
-    // Pairs of fields whose sub-selections are being compared right now. With cyclic
-    // fragment spreads the comparison of two fields can reach the same two fields again;
-    // the nested comparison cannot find anything the running one does not find.
-    fields_being_compared: Vec<(&'a Field, &'a Field)>,
+    // Pairs of fields (with the mutually-exclusive flag) whose sub-selections have been, or
+    // are being, compared while checking the current selection set. With fragment spreads
+    // (cyclic ones in particular) the same two fields are reached along many paths; comparing
+    // them again cannot find anything the first comparison does not find.
+    compared_fields: HashSet<(usize, usize, bool)>,
 }
 
 /**
@@ -215,7 +216,7 @@ impl<'a> OverlappingFieldsCanBeMerged<'a> {
         Self {
             named_fragments: HashMap::new(),
             compared_fragments: PairSet::new(),
-            fields_being_compared: Vec::new(),
+            compared_fields: HashSet::new(),
         }
     }
 
@@ -436,14 +437,14 @@ impl<'a> OverlappingFieldsCanBeMerged<'a> {
         // for both collections so fields in a fragment reference are never
         // compared to themselves.
         if !field1.selection_set.items.is_empty() && !field2.selection_set.items.is_empty() {
-            if self
-                .fields_being_compared
-                .iter()
-                .any(|(f1, f2)| std::ptr::eq(*f1, field1) && std::ptr::eq(*f2, field2))
-            {
+            let field_pair = (
+                field1 as *const Field as usize,
+                field2 as *const Field as usize,
+                mutually_exclusive,
+            );
+            if !self.compared_fields.insert(field_pair) {
                 return None;
             }
-            self.fields_being_compared.push((field1, field2));
 
             let conflicts = self.find_conflicts_between_sub_selection_sets(
                 schema,
@@ -454,8 +455,6 @@ impl<'a> OverlappingFieldsCanBeMerged<'a> {
                 &field2.selection_set,
                 visited_fragments,
             );
-
-            self.fields_being_compared.pop();
 
             return self.subfield_conflicts(
                 &conflicts,
@@ -854,6 +853,7 @@ impl<'a> OperationVisitor<'a, ValidationErrorContext> for OverlappingFieldsCanBe
         let parent_type = visitor_context.current_parent_type();
         let schema = visitor_context.schema;
         let mut visited_fragments = Vec::new();
+        self.compared_fields.clear();
         let found_conflicts = self.find_conflicts_within_selection_set(
             schema,
             parent_type,
